@@ -315,6 +315,14 @@ pub enum BlockT {
 	CoinbaseOutputFlagRemoved,
 	CoinbaseKernelFlagRemoved,
 	CoinbaseFlagOnRegularOutput,
+	/// the coinbase output carries the (valid) range proof of a different output
+	CoinbaseProofFromOtherOutput,
+	/// one significant bit of the coinbase output's range proof flipped
+	CoinbaseProofScalarFlip,
+	/// reward split into (reward+X) with a valid proof and a "negative" output (-X)
+	/// that cannot have a valid proof; coinbase rule and all sums still balance, so
+	/// only the range proof of the second coinbase output can refuse it
+	CoinbaseNegativeSplit,
 	KernelOffsetChanged,
 	/// a transaction of the block replaced by one creating value (signatures valid)
 	InflatingTx,
@@ -360,6 +368,9 @@ pub fn block_catalogue() -> Vec<BlockT> {
 		CoinbaseOutputFlagRemoved,
 		CoinbaseKernelFlagRemoved,
 		CoinbaseFlagOnRegularOutput,
+		CoinbaseProofFromOtherOutput,
+		CoinbaseProofScalarFlip,
+		CoinbaseNegativeSplit,
 		KernelOffsetChanged,
 		InflatingTx,
 		OutputRoot,
@@ -381,6 +392,8 @@ pub fn block_catalogue() -> Vec<BlockT> {
 	}
 	v
 }
+
+const AMT_OTHER: [u64; 3] = [1_000_000_000, 2_000_000_000, 5_000_000_000];
 
 pub struct Tampered {
 	pub block: Block,
@@ -496,6 +509,44 @@ pub fn tampered_block(
 				return Ok(None);
 			}
 			stage = Stage::CoinbaseRule; // applied on the merged body below
+		}
+		CoinbaseProofFromOtherOutput => {
+			let other = LIB.output(&OutRef {
+				amount: AMT_OTHER[pick % AMT_OTHER.len()],
+				key: 3 + (pick % 3) as u32,
+				cb: false,
+			});
+			cb_outs[0].proof = other.proof;
+			stage = Stage::BodyValidation;
+		}
+		CoinbaseProofScalarFlip => {
+			cb_outs[0].proof.proof[pick % 64] ^= 1 << (pick % 8);
+			stage = Stage::BodyValidation;
+		}
+		CoinbaseNegativeSplit => {
+			let x = [1u64, 1_000, 1_000_000_000][pick % 3];
+			let ra = OutRef {
+				amount: reward + x,
+				key: cb_key,
+				cb: true,
+			};
+			let rb = OutRef {
+				amount: x,
+				key: cb_key + 1,
+				cb: true,
+			};
+			let a = LIB.output(&ra);
+			// B = -(x*H + r2*G)
+			let b_commit = {
+				let secp = static_secp_instance();
+				let secp = secp.lock();
+				secp.commit_sum(vec![], vec![LIB.commit(&rb)]).map_err(|e| format!("{:?}", e))?
+			};
+			let b = Output::new(OutputFeatures::Coinbase, b_commit, a.proof);
+			let key = sum_scalars(vec![LIB.blind(&ra)], vec![LIB.blind(&rb)]).ok_or("zero key")?;
+			cb_outs = vec![a, b];
+			cb_kerns = vec![sign_kernel(KernelFeatures::Coinbase, &key)];
+			stage = Stage::BodyValidation;
 		}
 		InflatingTx => {
 			if specs.is_empty() {
